@@ -576,7 +576,7 @@ def operations(tier):
 # Operation objects (generators, smoothers, scorers, the policy) are plain parameter
 # holders: calling one again - after any earlier calls with other seeds / inputs - with
 # identical inputs and an identically seeded generator must give the output a fresh
-# object gives.  Histories: every sequence of <= 3 calls over a 3-letter alphabet of
+# object gives.  Histories: every sequence of <= 3 calls over a 4-letter alphabet (one letter is a degenerate screen most operations refuse) of
 # (seed, input) pairs; the last call is compared with a fresh object.
 REUSE_ALPHABET = [(0, 0), (1, 0), (0, 1), (0, 6)]  # (seed, input); input 6 is the degenerate screen most operations refuse
 
